@@ -305,7 +305,9 @@ func (cfg *config) printCfg(w io.Writer, skipComments, skipVer, annot bool) {
 		fmt.Fprintln(w, "# configuration parsed by shakespeare", versionName)
 	}
 
-	fkw, fsn, fan, frn, facn, fann, fmod, fre, fsh := fid, fid, fid, fid, fid, fid, fid, fid, escapeNl
+	// Expressions, regular expressions and free text can span several
+	// lines, like shell commands: the line continuations are printed back.
+	fkw, fsn, fan, frn, facn, fann, fmod, fre, fsh := fid, fid, fid, fid, fid, fid, fid, escapeNl, escapeNl
 	if annot {
 		fkw = fw("kw")                                               // keyword
 		fsn = fw("sn")                                               // sig name
@@ -314,18 +316,18 @@ func (cfg *config) printCfg(w io.Writer, skipComments, skipVer, annot bool) {
 		facn = fw("acn")                                             // action name
 		fann = fw("ann")                                             // audience name
 		fmod = fw("mod")                                             // modality
-		fre = fw("re")                                               // regexp
+		fre = func(s string) string { return fw("re")(escapeNl(s)) } // regexp
 		fsh = func(s string) string { return fw("sh")(escapeNl(s)) } // shell script
 	}
 
 	for _, title := range cfg.titleStrings {
-		fmt.Fprintln(w, fkw("title"), title)
+		fmt.Fprintln(w, fkw("title"), escapeNl(title))
 	}
 	for _, author := range cfg.authors {
-		fmt.Fprintln(w, fkw("author"), author)
+		fmt.Fprintln(w, fkw("author"), escapeNl(author))
 	}
 	for _, seeAlso := range cfg.seeAlso {
-		fmt.Fprintln(w, fkw("attention"), seeAlso)
+		fmt.Fprintln(w, fkw("attention"), escapeNl(seeAlso))
 	}
 	if len(cfg.roles) == 0 {
 		if !skipComments {
@@ -415,7 +417,7 @@ func (cfg *config) printCfg(w io.Writer, skipComments, skipVer, annot bool) {
 			fmt.Fprintf(w, "  %s %s\n", fkw("storyline"), strings.Join(cfg.storyLine, " "))
 		}
 		if cfg.repeatFrom != nil {
-			fmt.Fprintf(w, "  %s %s\n", fkw("repeat from"), cfg.repeatFrom.String())
+			fmt.Fprintf(w, "  %s %s\n", fkw("repeat from"), escapeNl(cfg.repeatFrom.String()))
 			if cfg.repeatActNum > 0 {
 				fmt.Fprintf(w, "  # (repeating act %d and following)\n", cfg.repeatActNum)
 			} else {
@@ -514,7 +516,7 @@ func (cfg *config) printCfg(w io.Writer, skipComments, skipVer, annot bool) {
 			}
 			if a.observer.ylabel != "" {
 				m.observer = append(m.observer, audClause{
-					text: fmt.Sprintf("  %s %s %s\n", fann(a.name), fkw("measures"), a.observer.ylabel)})
+					text: fmt.Sprintf("  %s %s %s\n", fann(a.name), fkw("measures"), escapeNl(a.observer.ylabel))})
 			}
 			if a.observer.disablePlot {
 				m.observer = append(m.observer, audClause{
